@@ -196,13 +196,14 @@ P("C12", [("V22", None), ("V26", None), ("V27", None)],
   "SolveState on unwinding; the stack invariant 'every entry below the top holds its suspended strand'.",
   "contract-based deductive verification: Verus on mechanically extracted function text, in-place loop invariant with termination measure, proved sequence lemmas")
 
-P("C02", [("V23", None), ("V3", None), ("V17", None), ("V28", None)],
+P("C02", [("V23", None), ("V3", None), ("V17", None), ("V28", None), ("V18", None), ("V24", None)],
   "proof",
   "Partial (two of the four mechanisms named in the anchors, recursive solver): Verus proves on the verbatim text that the fixed-point iteration of solve_new_subgoal starts from 'no solution' for an "
   "inductive goal (initial_value, V3) and returns only with an answer that is a fixed point of its last iteration - or that did not depend on the goal itself - stored unchanged for the goal (V23); that the "
   "iteration stops exactly when the answer repeats or is ambiguous (reached_fixed_point, V3); and that the size limit acts as stated: an oversize subgoal is never tabled / an oversize obligation is marked "
   "cannot-prove, nothing else is (V17); and that what the limit is compared with is the size of the LARGEST outermost type of the goal, each measured on its own (TySizeVisitor::visit_ty resets its running "
-  "count after every outermost type, counts a bound unknown as the type it is bound to, and leaves its depth as it found it, V28). Unbounded; partial correctness for the loop.",
+  "count after every outermost type, counts a bound unknown as the type it is bound to, and leaves its depth as it found it, V28); and that the tabling step around the loop records every dependency on a "
+  "provisional answer and makes an answer permanent only when its SCC is complete (solve_goal, V18 / V24), so that a closed goal is never answered from a stale provisional result. Unbounded; partial correctness for the loop.",
   "Not reached: 'never Ambiguous for goals without unknowns' as a whole-search statement - Fulfill's obligation loop (mut self, iterator code, P25), the SLG side (on_no_strands_left, clear_strands_after_cycle: "
   "closures over &mut self), and that the answer is the one the logical meaning dictates (C01).",
   "contract-based deductive verification: Verus on mechanically extracted function text, ghost history in the abstract search graph, in-place loop invariant")
